@@ -71,8 +71,17 @@ def rule_o1(ctx):
                                    "p_fini", "p_close", "p_stop", "d_fini", "l_fini", "d_close", "l_close", "rl_func"):
             for name, g, file in ents:
                 teardown.add(name)
+    # file-local helpers that a teardown function hands its object to release there on its behalf
+    helpers = set()
     for f in prog.functions:
-        if not (f.name in teardown or f.name.endswith(("_fini", "_close", "_stop", "_free", "_destroy", "_reap"))):
+        if f.cfg_failed or not (f.name in teardown or f.name.endswith(("_fini", "_close", "_stop", "_free", "_destroy", "_reap"))):
+            continue
+        for c in f.calls():
+            h = prog.resolve(f, c.node["fn"]) if c.node.get("fn") else None
+            if h is not None and h.static and h.file == f.file and not h.cfg_failed:
+                helpers.add(h.name)
+    for f in prog.functions:
+        if not (f.name in teardown or f.name in helpers or f.name.endswith(("_fini", "_close", "_stop", "_free", "_destroy", "_reap"))):
             continue
         for sct in f.calls(("nni_aio_get_msg", "nng_aio_get_msg")):
             lf = last_field(f.expand(sct.node["args"][0])) if sct.node["args"] else None
